@@ -3,6 +3,8 @@
 # Rebuilds the harness against /repo's current working tree (verif-hooks feature on), then runs.
 cd /verif/harness || exit 2
 export CARGO_NET_OFFLINE=true
+# the build output location is fixed: an inherited CARGO_TARGET_DIR must not redirect it
+export CARGO_TARGET_DIR=/verif/.target
 if ! cargo build --release --offline >/verif/.target/build.log 2>&1; then
   # a tree that does not compile is a machinery failure, never a verdict
   tail -40 /verif/.target/build.log >&2
